@@ -336,3 +336,14 @@ Fixpoint client_do_norecheck (fuel : nat) (w : world) (k : nat) (via : nat) (u :
           end
       end
   end.
+
+(** Mutant (regression lemma only): a dialer that pins a single vetted address
+    but hands a name with two or more vetted addresses back to net.Dialer, which
+    resolves it once more ([ans2]) and connects to that unvetted answer. *)
+Definition dial_multi_by_name (ans1 ans2 : option (list ip)) (reach : ip -> bool) : list ip :=
+  match guarded_dial false false (Some ([], [])) ans1 reach, ans1 with
+  | DTried t _, Some ips =>
+      if (2 <=? length ips)%nat then match ans2 with Some l => fst (dial_each l reach) | None => [] end
+      else t
+  | _, _ => []
+  end.
